@@ -44,7 +44,7 @@ def prepare(sc: Scratch) -> dict:
         "assumptions": [
             "figment shim: three abstract sources (base file, profile file, environment) whose per-key presence and value the harness chooses; merge = later source wins, join = earlier wins (figment's documented semantics); figment itself, YAML parsing, key casing and file discovery are the trusted base",
             "std::env::var is stubbed: PX_PROFILE is absent, 'dev', 'prd' or 'zz' (arbitrary choice)",
-            "std::fmt::format is stubbed to the file name of the announced profile: the link profile name -> file name is outside the claim (the formatting machinery is beyond CBMC here)",
+            "std::fmt::format is stubbed: it answers '<name>.yml' for the profile whose name the loader asked for last (AsRef<str>), so which profile selects the file IS checked; only the literal '{}.yml' template is outside the claim (the formatting machinery is beyond CBMC here)",
             "anyhow / tracing shims: opaque error value, no-op spans",
             "2 flat keys of type u8; nested keys and the __ splitting itself are figment's (only the separator handed over is checked)",
             "Kani 0.68 / CBMC 6.11 / CaDiCaL trusted; results hold within the stated bounds only",
